@@ -159,8 +159,8 @@ TEXT["C07"] = dict(
     "Racing legs (3.12, 3.11, 3.10, 3.9): while extract(thread), extract_since(frame of another thread) or lowlevel.inspect_frame run, the tape lets the inspected thread advance 1-4 yield points at any after-CALL / backward-jump / RESUME boundary "
     "of inspect_frame, _parse_exception_table, unwrap_thread, unwrap_stackslice/try_from and the context analysis (leave a with, return, raise out of the frame, call deeper, exit the thread). The worker must not die on a signal, extract must not raise, "
     "reported frames must belong to the inspected thread, and an accepted inspect_frame snapshot must name exactly the managers entered at one of the positions occupied during the call. "
-    "On 3.9/3.10 (no stack top recorded for a running frame) every address that inspect_frame turns into an object reference is judged, when it happens, against an exact ownership log of the inspected frame's value stack; "
-    "a dereference of an address the frame no longer owns is a violation even if the process survives it.",
+    "Every value-stack address that inspect_frame turns into an object reference is judged when it happens: on 3.9/3.10 (no stack top recorded for a running frame) against an exact ownership log of the inspected frame's value stack, "
+    "on 3.11/3.12 against the slot range the frame owns at that moment (current InterpreterFrame, owner, stack top or static depth); a dereference of an address the frame does not own is a violation even if the process survives it.",
     note="Trusted: assumption A-GIL (DESIGN.md 2.3); switches inside a blocking C call are modelled as switches right after the call; targets only stop at generated yield points; no uncontrolled switch-interval stress; on 3.9/3.10 the boundaries used are a sound subset of the interpreter's real switch points; the static stack-depth computation (sim/world/stackdepth.py) is trusted for the ownership oracle.",
     design_ref="5 (C07), 2.3",
 )
